@@ -372,6 +372,10 @@ def gen_case(rng, cid, profile):
     finish_case(rng, case)
     if osargs and rng.random() < 0.12:
         case["child"] = True
+    if ops and rng.random() < 0.1:
+        # the last options are process-wide ones (app.Settings), which every Run applies after its own: the same sequence
+        case["child"] = True
+        case["global"] = rng.randint(1, len(ops))
     return case
 
 
@@ -589,7 +593,8 @@ def go_case(ctx, case):
         else:
             ops.append({"op": o["op"], "loaders": [spec(L) for L in o["loaders"]]})
     return {"id": case["id"], "osargs": [arg_text(p, a) for p, a in case["osargs"]], "ops": ops,
-            "paths": [".".join(p) for p in case["paths"]], "prefix": case["prefix"], "child": case["child"]}
+            "paths": [".".join(p) for p in case["paths"]], "prefix": case["prefix"], "child": case["child"],
+            "global": case.get("global", 0)}
 
 
 def cs(s):
@@ -1657,6 +1662,7 @@ def run(ctx):
         "traces_validated_against_impl": len(cases),
         "input_distribution": {"loader_kinds": kinds, "loaders_per_case": nload, "options": opkinds, "profiles": profiles,
                                "child_process_cases(real os.Args)": sum(1 for c in cases if c.get("child")),
+                               "cases_with_process_wide_options(app.Settings)": sum(1 for c in cases if c.get("global")),
                                "prefix_bound_cases": sum(1 for c in cases if c.get("prefix")),
                                "repeated_payloads": rep,
                                "command_line_values(--app.config=K=V)": argtexts,
